@@ -10,6 +10,67 @@ E2 = "xh (CrossHair 0.0.110 + z3 over nunavut's own Python)"
 E1 = "llsym (own bounded symbolic executor for clang-14 LLVM IR, z3 bit-vectors/FP)"
 
 CHECKS = {
+    "C01": dict(
+        engine=E1, category="other", design_ref="DESIGN.md sections 2 (E1), 3, 4, 5 C01",
+        technique="bounded symbolic execution of the LLVM IR of each generated C serializer (own executor llsym + z3 bit-vectors/FP): all object bytes "
+                  "and prior buffer bytes symbolic; per path and value shape one query against a reference model of DSDL serialization; native replay",
+        text="For every type of a finite corpus (one small type per template feature) and 2 (thorough: 4) option sets: for EVERY object content "
+             "(padding, counts, tags, out-of-range storage values included) and every prior buffer content the generated serializer returns the "
+             "specified size and exactly the specified bytes (void/padding zero whatever the buffer held), and rejects values that have no representation. "
+             "The quantifier over values is the solver's; the quantifier over types is an enumerated corpus.",
+        note="Trusted: clang 14 lowering (-O1 IR, x86-64), z3, the llsym interpreter (co-simulated in C14), llsym/dsdlspec.py, pydsdl. bool storage in {0,1}. "
+             "C target only: C++ and Python executors are staged and reported as not covered. Types outside the corpus are outside."),
+    "C02": dict(
+        engine=E1, category="other", design_ref="DESIGN.md sections 2 (E1), 4, 5 C02",
+        technique="bounded symbolic execution of the LLVM IR of each generated C deserializer on an arbitrary L-byte buffer (all bytes symbolic, "
+                  "bounded-domain splitting on length prefixes/tags/delimiter headers); per path and wire shape one z3 query against the reference decode",
+        text="For every corpus type, option set and buffer length L in the stated set (thorough: every L up to max(extent,max)+2) and EVERY byte string of "
+             "that length: return code, consumed size (never more than supplied) and every meaningful decoded field equal the reference decode of the "
+             "zero-extended buffer; error codes exactly when the representation is invalid.",
+        note="Trusted as C01. Arbitrary buffers (not only truncated encodings) are covered within L; longer buffers and other types are outside. C target only."),
+    "C04": dict(
+        engine=E1, category="other", design_ref="DESIGN.md section 5 C04",
+        technique="symbolic execution of -O0+mem2reg IR with interpreter obligations (bounds of exactly-sized objects, uninitialised reads, shifts, nsw "
+                  "overflow, memcpy overlap, const writes, reached asserts); prior-state independence by syntactic non-interference, else a two-copy z3 query",
+        text="For every corpus type: serialization with NO validity assumption on counts/tags and buffers of size 0..max+2, deserialization of arbitrary "
+             "buffers into an arbitrary prior destination state, and the documented NULL/size-0 calls: no obligation fails on any path, every path ends in a "
+             "documented code with size <= supplied, and path/return code/consumed size/meaningful fields do not depend on the destination's prior bytes.",
+        note="Trusted: clang 14, z3, llsym memory model (objects are exactly sized; pointers are (object, offset)). Where -O0 IR exceeds its budget "
+             "(float16 saturation inside arrays) the run falls back to -O1 IR with memory obligations only and says so. GEP excursions never dereferenced are "
+             "notes. C only; C++ heap discipline staged."),
+    "C05": dict(
+        engine=E1, category="other", design_ref="DESIGN.md section 5 C05",
+        technique="symbolic execution (llsym/z3) of serializers with exactly-sized buffers of every size up to the advertised one; unbounded-integer z3 lemma "
+                  "for bits->bytes translated from the function's AST; ground comparison of exported macros with the pydsdl model",
+        text="Symbolic: with a buffer of exactly the advertised size no access leaves the buffer and rc==0 implies size <= advertised <= extent, for every "
+             "value; with any smaller buffer every path returns buffer-too-small and writes nothing outside. Ground (labelled as such): every exported "
+             "macro (extent, buffer size, port-ID incl. 0 and maxima, names, capacities, option count, constants incl. extreme ints and floats within one "
+             "ulp of the declared type) equals the DSDL definition.",
+        note="The metadata part is evaluation, not a solver verdict over inputs. Trusted: clang 14, z3, llsym, pydsdl. C target only."),
+    "C14": dict(
+        engine=E1, category="other", design_ref="DESIGN.md section 5 C14",
+        technique="symbolic execution (llsym/z3) of every C support primitive on -O0 IR: bit offsets/lengths/sizes iterated over the whole stated range, all "
+                  "buffer contents and values symbolic, exactly-sized guard objects; float16 lemmas over IR-extracted terms for all 2^32 / 2^16 inputs",
+        text="Per (primitive, shape) and for EVERY buffer content and value: exactly the addressed bits change, bits past the end read as zero, sign "
+             "extension, too-small buffers are refused untouched, no out-of-bounds access; half packing is faithful, monotone, inf/NaN preserving and "
+             "round-trips all 65536 halves (z3 FP theory, all inputs at once). Interpreter co-simulated against the native binary every run.",
+        note="Shapes are enumerated (symbolic shapes do not terminate), data is solver-quantified. C support library for target_endianness any/little, asserts "
+             "on/off. C++ bitspan and Python primitives are staged: not covered. Overlapping copies with a partial last byte are outside the documented contract."),
+    "C17": dict(
+        engine="smt (direct z3 queries)", category="other", design_ref="DESIGN.md section 5 C17",
+        technique="finite-domain SMT (z3) over define/assert tables extracted from real renders of the support and type headers, one render per documented "
+                  "option value; all ordered pairs of option sets decided at once; counterexamples replayed by compiling the mixed headers",
+        text="Weak form, stated as such: no compiler is encoded. Decided: no two different option sets satisfy every emitted static assertion, no identical "
+             "sets violate one, every documented option key is compared. c: 3x2x2x2 sets; cpp additionally 5 std values with their groups.",
+        note="Assumes each emitted key is driven by one option (spot-validated on seeded multi-option renders) and that static_assert fires on unequal numbers."),
+    "C20": dict(
+        engine=E2, category="other", design_ref="DESIGN.md section 5 C20",
+        technique="CrossHair/z3 symbolic execution of the real html templates with the documentation string symbolic; page must equal the page rendered for an "
+                  "inert marker with the marker replaced by an inert escaping of the string",
+        text="Escaping clause only: for every documentation text of 1..2 (thorough 3) characters over {<,>,&,a,\",'} placed as type documentation or field "
+             "documentation, the type page and the namespace index page differ from the marker pages only by text that contains no < or >, whose every & "
+             "starts a character reference and that un-escapes to the documentation.",
+        note="Well-formedness and link-target clauses are NOT decided (no symbolic handle over all ASTs). Class-representative alphabet, tiny lengths."),
     "C08": dict(
         engine=E2, category="other", design_ref="DESIGN.md section 5 C08",
         technique="CrossHair/z3 symbolic execution of the real CLI dispatch (all mode/support flags symbolic) against generator contract stubs, "
